@@ -549,6 +549,7 @@ func (c *Chunker) buildSections(doc *model.Document) []*Section {
 				}
 				sections = append(sections, preambleSection)
 				preambleContent = nil
+				preambleStartPage, preambleEndPage = 0, 0
 			}
 
 			// Create new section for this heading
